@@ -1,7 +1,7 @@
 //! C05 — Blind BBS issuance and presentation completeness (form A, deviation bound 0).
 #![allow(non_snake_case)]
 use crate::common::*;
-use mccore::{par_for, subsets, O};
+use mccore::{par_for, subsets};
 use refbbs::Suite;
 use serde_json::json;
 
